@@ -59,6 +59,10 @@ func (m *Conn) Read(p []byte) (int, error) {
 	return m.reader.Read(p)
 }
 
+// closeFlushTimeout bounds the time a closing connection spends on sending what
+// is still queued for it.
+const closeFlushTimeout = time.Second
+
 // Write writes the block of data into the underlying buffer.
 func (m *Conn) Write(p []byte) (int, error) {
 	verifyield.Point("listener.Conn.Write:entry")
@@ -86,6 +90,13 @@ func (m *Conn) Write(p []byte) (int, error) {
 // and return errors.
 func (m *Conn) Close() error {
 	m.cancel()
+
+	// What the rate limiter has queued was written before the close and is sent
+	// like any written data, but a peer which does not read cannot hold up the close.
+	if m.Len() > 0 {
+		m.socket.SetWriteDeadline(time.Now().Add(closeFlushTimeout))
+		m.Flush()
+	}
 	return m.socket.Close()
 }
 
